@@ -19,6 +19,8 @@ VERIF = os.path.dirname(os.path.dirname(os.path.abspath(__file__)))
 COQ = os.environ.get('VERIF_COQ') or os.path.join(VERIF, 'coq')
 REPO = os.environ.get('VERIF_REPO', '/repo')
 LOCK = os.path.join(VERIF, '.build.lock') if not os.environ.get('VERIF_COQ') else os.path.join(COQ, '.build.lock')
+# runs against a scratch copy of the source (development aid) keep their evidence / replays out of /verif
+OUT = VERIF if os.path.realpath(REPO) == '/repo' else (os.path.dirname(COQ.rstrip('/')) if os.environ.get('VERIF_COQ') else '/tmp/verif_out')
 
 FORBIDDEN = re.compile(
     r'\b(Admitted|admit|Axiom|Axioms|Parameter|Parameters|Conjecture|Conjectures|'
@@ -275,10 +277,10 @@ def safe_run_impl(prop, case):
 
 
 def write_replay(pid, seed, payload):
-    os.makedirs(os.path.join(VERIF, 'replays'), exist_ok=True)
+    os.makedirs(os.path.join(OUT, 'replays'), exist_ok=True)
     n = 0
     while True:
-        p = os.path.join(VERIF, 'replays', '%s-%d-%d.json' % (pid, seed, n))
+        p = os.path.join(OUT, 'replays', '%s-%d-%d.json' % (pid, seed, n))
         if not os.path.exists(p):
             break
         n += 1
@@ -554,8 +556,8 @@ def run_check(prop, tier='quick', seed=0, replay=None, budget=None):
     if proofs_ok:
         ev['coverage']['discharged'] = len(thms)
     if not replay:
-        os.makedirs(os.path.join(VERIF, 'evidence'), exist_ok=True)
-        json.dump(ev, open(os.path.join(VERIF, 'evidence', pid + '.json'), 'w'), indent=1, sort_keys=True)
+        os.makedirs(os.path.join(OUT, 'evidence'), exist_ok=True)
+        json.dump(ev, open(os.path.join(OUT, 'evidence', pid + '.json'), 'w'), indent=1, sort_keys=True)
     log('%s %s: cases=%d verdicts=%s proofs_ok=%s model_ok=%s wall=%.1fs rc=%d' % (
         pid, tier, len(items), counts, proofs_ok, model_ok, time.time() - t0, rc))
     return rc
